@@ -310,6 +310,10 @@ bool expression_t::has_dynamic_sub() const
     return hasIt;
 }
 
+#ifdef UTAP_VERIF
+size_t expression_t::verif_stored_children() const { return data ? data->sub.size() : 0; }
+#endif
+
 size_t expression_t::get_size() const
 {
     if (empty())
